@@ -18,18 +18,318 @@ Decided:
          content_length (from getsize) and last_modified (from get_file_mtime) are all assigned before return;
   R14.e  StaticApplication registers '/<path*>' bound to get_file_response, which joins segments with '/'.
 Declined: byte equality of bodies, MIME guessing, date formatting.
+
+Constructs are located by role, not by spelling.  The loader dissolves private helpers into their callers; on top of
+that the rules follow: tests held in a single-assignment local (``flag = X.startswith('/')`` ... ``if flag``,
+also wrapped in ``bool()``) and boolean combinations of the refusals with ``limit_root`` (_edge_facts); several names for
+the one normalised path; plain copies of locals and tuple (un)packing when asking where a header value / the wrapped
+file / the compared mtime comes from (_sources: all bindings, flow-insensitive); ``except <module-level tuple of
+classes>`` (_caught_names); ``exc = Forbidden(..); raise exc``; module-level constants for the route pattern, the
+status code and ``is_breaking``; ``mtime <= t`` written as ``t >= mtime`` or as the else-branch of ``mtime > t``; the
+search loop written with a guard + continue or as ``next((p for .. if isfile(p)), None)``; keyword or positional
+arguments.  A value or test that moved into a function of the package which is *not* dissolved (public name) is an
+ANALYSIS-ERROR ("not followed"), not a violation; a private function nothing refers to any more is not on the serving path.
 """
 import ast
 
 from ..core import AnalysisError, norm, short
 from .common import (cfg_of, fkey, conds, has_cond, cond_texts, stmts_of, walk_body, call_tail, call_name,
                      returns_of, raises_of, raise_type, protected_by, stmt_of, kwarg)
-from ..cfg import enclosing_tries
-from ..astutil import handler_catches
+from .common import implies_absent, local_aliases
+from ..cfg import enclosing_tries, expand_conds
+from ..normalize import anchor_names
+from ..astutil import assigned_value, argn, names_stored, exc_supertypes, EXC_ALIASES
 
 STATIC = 'clastic.static'
 FS_PRIMS = {'open', 'getmtime', 'getsize', 'get_file_mtime', 'peek_file', 'read', 'seek', 'tell', 'stat', 'fstat', 'readline'}
 HTTP_ERRS = {'Forbidden', 'NotFound', 'BadRequest', 'HTTPException', 'InternalServerError'}
+
+
+# ---------------------------------------------------------------------------------------------- value flow
+def _param(name):
+    """Marker: the (initial) value of a parameter, as a source of a local."""
+    p = ast.Name(id=name, ctx=ast.Load())
+    p._vt_param = True
+    return p
+
+
+def _is_param(e, name=None):
+    return isinstance(e, ast.Name) and getattr(e, '_vt_param', False) and (name is None or e.id == name)
+
+
+def _sources(fi, name, seen=None):
+    """Every value expression that can end up bound to the local / parameter ``name`` of ``fi`` (flow-insensitive,
+    therefore valid at every use): plain copies of other locals (``a = b``) are followed, a parameter contributes a
+    marker Name (_param), ``a, b = x, y`` contributes the matching element, ``a, b = f()`` contributes ``f()[i]``; an
+    augmented assignment / loop / with / except binding contributes the binding statement itself (never accepted by
+    a predicate on expressions)."""
+    seen = set() if seen is None else seen
+    if name in seen:
+        return []
+    seen.add(name)
+    params = fi.params()
+    out = []
+    if name in params:
+        out.append(_param(name))
+    for st, val, idx in assigned_value(fi.node, name):
+        if isinstance(idx, int):
+            tgt = [t for t in st.targets if isinstance(t, (ast.Tuple, ast.List))
+                   and any(isinstance(e, ast.Name) and e.id == name for e in t.elts)]
+            if isinstance(val, (ast.Tuple, ast.List)) and tgt and len(tgt[0].elts) == len(val.elts) and \
+                    not any(isinstance(e, ast.Starred) for e in list(tgt[0].elts) + list(val.elts)):
+                val, idx = val.elts[idx], None
+            elif tgt and not any(isinstance(e, ast.Starred) for e in tgt[0].elts):
+                val, idx = ast.copy_location(ast.Subscript(value=val, slice=ast.Constant(value=idx), ctx=ast.Load()), val), None
+        if idx is not None or not isinstance(val, ast.expr):
+            out.append(st)
+        elif isinstance(val, ast.Name) and (val.id in params or assigned_value(fi.node, val.id)):
+            out.extend(_sources(fi, val.id, seen))
+        else:
+            out.append(val)
+    return out
+
+
+def _srcs(fi, expr):
+    """Sources of an expression: of the local it names, else the expression itself."""
+    if isinstance(expr, ast.Name) and (expr.id in fi.params() or assigned_value(fi.node, expr.id)):
+        return _sources(fi, expr.id)
+    return [expr]
+
+
+def _internal_callee(fi, e):
+    """``e`` is (an element of) the result of calling a function of the analysed package that was not dissolved into
+    this function: its name, else None."""
+    while isinstance(e, ast.Subscript):
+        e = e.value
+    if not isinstance(e, ast.Call):
+        return None
+    f = e.func
+    repo = fi.mod.repo
+    try:
+        if isinstance(f, ast.Name) and f.id not in _locals_of(fi):
+            kind, m, obj = repo.resolve(fi.mod, f.id)
+            if kind == 'func' and m is not None and not m.external and f.id not in anchor_names():
+                return f.id      # (functions the rules name are judged by name; the rest would need following)
+        if isinstance(f, ast.Attribute) and isinstance(f.value, ast.Name) and f.value.id in ('self', 'cls') and fi.cls is not None:
+            meth = repo.find_method(fi.cls, f.attr)
+            if meth is not None and not meth.mod.external and f.attr not in anchor_names():
+                return norm(f)
+    except AnalysisError:
+        raise
+    except Exception:
+        return None
+    return None
+
+
+def _all_srcs(fi, expr, pred, known=()):
+    """Every source of ``expr`` satisfies ``pred``.  A source produced by a function of the package that the loader
+    did not dissolve (and that is not one of the ``known`` primitives) cannot be judged here: analysis error."""
+    ss = _srcs(fi, expr) if expr is not None else []
+    ok = bool(ss)
+    for x in ss:
+        if isinstance(x, ast.expr) and pred(x):
+            continue
+        ok = False
+        callee = _internal_callee(fi, x) if isinstance(x, ast.expr) else None
+        if callee is not None and callee not in known:
+            raise AnalysisError('%s: value %s comes from %s(), which is not followed' % (fi.qualname, short(expr), callee))
+    return ok
+
+
+def _unbool(cs):
+    """``bool(e)`` known true / false says the same about ``e`` (``flag = bool(a and b)``)."""
+    out = list(cs)
+    known = set((norm(t), p) for t, p in out)
+    todo = list(out)
+    while todo:
+        t, p = todo.pop()
+        if isinstance(t, ast.Call) and isinstance(t.func, ast.Name) and t.func.id == 'bool' and len(t.args) == 1 and not t.keywords \
+                and not isinstance(t.args[0], ast.Starred):
+            for c in expand_conds([(t.args[0], p)]):
+                if (norm(c[0]), c[1]) not in known:
+                    known.add((norm(c[0]), c[1]))
+                    out.append(c)
+                    todo.append(c)
+    return out
+
+
+def _conds(fi, node):
+    return _unbool(conds(fi, node))
+
+
+def _branch_test(cfg, nid, t, p, depth=0):
+    """Effective (test, polarity) of a branch node: a test on a local naming a boolean expression
+    (``flag = <expr>`` ... ``if flag:``) is the test on that expression, provided the local has exactly one binding,
+    the binding dominates the branch and nothing in between re-binds a name the expression reads."""
+    while depth < 4:
+        depth += 1
+        while isinstance(t, ast.UnaryOp) and isinstance(t.op, ast.Not):
+            t, p = t.operand, not p
+        if isinstance(t, ast.Call) and isinstance(t.func, ast.Name) and t.func.id == 'bool' and len(t.args) == 1 and not t.keywords \
+                and not isinstance(t.args[0], ast.Starred):
+            t = t.args[0]
+            continue
+        if not isinstance(t, ast.Name):
+            break
+        asg = [nd for nd in cfg.nodes if nd.kind == 'stmt' and isinstance(nd.stmt, ast.Assign) and len(nd.stmt.targets) == 1
+               and isinstance(nd.stmt.targets[0], ast.Name) and nd.stmt.targets[0].id == t.id]
+        stmts = set(id(nd.stmt) for nd in asg)
+        others = [nd for nd in cfg.nodes if nd.kind in ('stmt', 'head') and nd.stmt is not None and id(nd.stmt) not in stmts
+                  and cfg._kills(t, [nd.id])]
+        if len(stmts) != 1 or others:
+            break
+        val = asg[0].stmt.value
+        ids = [nd.id for nd in asg]
+        if not cfg.must_pass(ids, cfg.entry, nid):
+            break
+        after = [m for x in ids for m in cfg.succ[x]]
+        mid = (cfg.reach(after, avoid=ids) & cfg.coreach([nid], avoid=ids)) - {nid}
+        if cfg._kills(val, mid):
+            break
+        t = val
+    return t, p
+
+
+def _edge_facts(cfg, nid, t, p, atom, depth=0):
+    """What is known on the edge where test ``t`` evaluated to polarity ``p``: the set of facts ``atom(test, pol)``
+    yields, propagated through ``not``, ``and`` / ``or`` (a false conjunction only guarantees what *each* conjunct being
+    false would guarantee; a false disjunction guarantees all of them), ``bool(..)`` and named tests."""
+    if depth > 6:
+        return frozenset()
+    while isinstance(t, ast.UnaryOp) and isinstance(t.op, ast.Not):
+        t, p = t.operand, not p
+    if isinstance(t, ast.BoolOp):
+        parts = [_edge_facts(cfg, nid, v, p, atom, depth + 1) for v in t.values]
+        all_known = (isinstance(t.op, ast.And) and p is True) or (isinstance(t.op, ast.Or) and p is False)
+        out = frozenset(parts[0])
+        for x in parts[1:]:
+            out = (out | x) if all_known else (out & x)
+        return out
+    t2, p2 = _branch_test(cfg, nid, t, p)
+    if t2 is not t:
+        return _edge_facts(cfg, nid, t2, p2, atom, depth + 1)
+    return frozenset(atom(t, p))
+
+
+# ---------------------------------------------------------------------------------------------- handlers
+def _caught_names(fi, htype, mod=None, depth=0):
+    """Exception class names an ``except <htype>`` clause names; a module-level constant holding a tuple of classes
+    (``_ERRORS = (ValueError, OSError)``) is looked through.  None = bare except."""
+    mod = mod or fi.mod
+    if htype is None:
+        return None
+    if isinstance(htype, ast.Tuple):
+        out = []
+        for e in htype.elts:
+            out.extend(_caught_names(fi, e, mod, depth + 1) or [])
+        return out
+    if isinstance(htype, ast.Name) and depth < 5 and not (mod is fi.mod and htype.id in _locals_of(fi)):
+        kind, m, obj = fi.mod.repo.resolve(mod, htype.id)
+        if kind == 'value' and len(obj) == 1 and isinstance(obj[0], (ast.Tuple, ast.Attribute)):
+            return _caught_names(fi, obj[0], m, depth + 1)
+        if kind == 'unknown' and isinstance(obj, str):
+            return [obj]
+    return [norm(htype)]
+
+
+def _locals_of(fi):
+    c = getattr(fi, '_c14_locals', None)
+    if c is None:
+        c = set(fi.params())
+        for s in stmts_of(fi.node):
+            if isinstance(s, (ast.FunctionDef, ast.AsyncFunctionDef, ast.ClassDef)):
+                c.add(s.name)
+                continue
+            for n in ast.walk(s):
+                if isinstance(n, ast.Name) and isinstance(n.ctx, (ast.Store, ast.Del)):
+                    c.add(n.id)
+                elif isinstance(n, ast.ExceptHandler) and n.name:
+                    c.add(n.name)
+        fi._c14_locals = c
+    return c
+
+
+def _catches(fi, handler, exc):
+    names = _caught_names(fi, handler.type)
+    if names is None:
+        return True
+    sup = set(exc_supertypes(exc))
+    return any(EXC_ALIASES.get(n, n) in sup for n in names)
+
+
+def _protected_by(fi, node, exc):
+    """common.protected_by, with handler types resolved through module-level constants."""
+    cur = node
+    while cur is not None and cur is not fi.node:
+        par = fi.mod.parents.get(cur)
+        if isinstance(cur, ast.Lambda):
+            return None
+        if isinstance(cur, ast.GeneratorExp) and not (isinstance(par, ast.Call) and cur in par.args):
+            return None
+        cur = par
+    for tr, part in enclosing_tries(fi.mod, node, fi.node):
+        if part != 'body':
+            continue
+        for h in tr.handlers:
+            if _catches(fi, h, exc):
+                return h
+    return None
+
+
+def _unreferenced_private(repo, fi):
+    """A private module-level function that nothing in the package refers to any more (the loader dissolves private
+    helpers into their callers; what the helper did is judged where it now stands)."""
+    name = fi.qualname
+    if '.' in name or not name.startswith('_') or (name.startswith('__') and name.endswith('__')):
+        return False
+    for m in repo.all_internal_modules():
+        for n in ast.walk(m.tree):
+            if isinstance(n, ast.Name) and n.id == name:
+                return False
+            if isinstance(n, ast.Attribute) and n.attr == name:
+                return False
+            if isinstance(n, ast.alias) and name in (n.name, n.asname):
+                return False
+            if isinstance(n, ast.Constant) and n.value == name:
+                return False
+    return True
+
+
+def _site_protected(repo, fi, c, depth=0):
+    """The call ``c`` in ``fi`` cannot let an OSError escape as a 500: it is under a handler raising a non-breaking 403,
+    or ``fi`` is a plain module-level function only ever *called* (never passed around) and every such call is."""
+    h = _protected_by(fi, c, 'OSError')
+    if h is not None and _nonbreaking_forbidden(h, fi):
+        return True
+    if h is not None or depth >= 3 or fi.cls is not None or '.' in fi.qualname:
+        return False
+    name = fi.qualname
+    n_calls = 0
+    for m in repo.all_internal_modules():
+        for n in ast.walk(m.tree):
+            if isinstance(n, ast.Attribute) and n.attr == name:
+                return False
+            if isinstance(n, ast.alias) and name in (n.name, n.asname):
+                return False
+            if isinstance(n, ast.Constant) and n.value == name:
+                return False
+            if isinstance(n, ast.Name) and n.id == name:
+                if m is not fi.mod:
+                    return False
+                par = m.parents.get(n)
+                if not (isinstance(par, ast.Call) and par.func is n):
+                    return False
+                fnode = m.enclosing_function(par)
+                caller = m.func_of_node(fnode) if fnode is not None else None
+                if caller is None or name in _locals_of(caller):
+                    return False
+                if caller.qualname == 'StaticFileRoute.__init__':
+                    n_calls += 1      # construction time, not a request
+                    continue
+                if not _site_protected(repo, caller, par, depth + 1):
+                    return False
+                n_calls += 1
+    return n_calls > 0
 
 
 def _is_abs_test(t, x):
@@ -44,18 +344,60 @@ def _is_pardir_test(t, x):
                  "%s.split(os.sep)[0] == os.pardir" % x, "%s.split('/')[0] == '..'" % x)
 
 
-def _nonbreaking_forbidden(handler):
+def _raised(fi, r):
+    """The expression a ``raise`` statement raises; ``exc = Forbidden(..); raise exc`` counts as raising that call when
+    the local has no other source."""
+    e = r.exc
+    if isinstance(e, ast.Name) and fi is not None and e.id in _locals_of(fi):
+        ss = _srcs(fi, e)
+        if len(ss) == 1 and isinstance(ss[0], ast.Call):
+            return ss[0]
+    return e
+
+
+def _rtype(fi, r):
+    e = _raised(fi, r)
+    if e is None:
+        return None
+    if isinstance(e, ast.Call):
+        e = e.func
+    return norm(e)
+
+
+def _is_nonbreaking_http(fi, r):
+    """``raise <HTTP error>(.., is_breaking=False)`` -> True / False; None when it does not raise an HTTP error call."""
+    e = _raised(fi, r)
+    if not (isinstance(e, ast.Call) and _rtype(fi, r) in HTTP_ERRS):
+        return None
+    v = kwarg(e, 'is_breaking')
+    if isinstance(v, ast.Name) and fi is not None and v.id not in _locals_of(fi):
+        return fi.mod.repo.try_fold(v, fi.mod) is False
+    return isinstance(v, ast.Constant) and v.value is False
+
+
+def _nonbreaking_forbidden(handler, fi=None):
     """handler body raises an HTTP error with is_breaking=False on every top-level path (simple shape)."""
     rz = [s for s in ast.walk(handler) if isinstance(s, ast.Raise)]
     if not rz:
         return False
     for r in rz:
-        if not (isinstance(r.exc, ast.Call) and raise_type(r) in HTTP_ERRS):
-            return False
-        v = kwarg(r.exc, 'is_breaking')
-        if not (isinstance(v, ast.Constant) and v.value is False):
+        if _is_nonbreaking_http(fi, r) is not True:
             return False
     return isinstance(handler.body[-1], ast.Raise)
+
+
+def _check_raises(rep, rule, st, fi, tail):
+    n = 0
+    for r in raises_of(fi):
+        nb = _is_nonbreaking_http(fi, r)
+        if nb is not None:
+            n += 1
+            rep.check(rule, fkey(fi, r) + '#' + ','.join(cond_texts(conds(fi, r)))[:80], nb,
+                      '%s is raised non-breaking' % _rtype(fi, r) if nb else
+                      '%s raised without is_breaking=False: %s' % (_rtype(fi, r), tail), st, r)
+        elif r.exc is not None:
+            rep.fail(rule, fkey(fi, r), 'serving function raises %s, which becomes a 500' % _rtype(fi, r), st, r)
+    return n
 
 
 def check_nonbreaking(rep, rule):
@@ -65,30 +407,53 @@ def check_nonbreaking(rep, rule):
     st = repo.mod(STATIC)
     n = 0
     for q in ('build_file_response', 'StaticApplication.get_file_response', 'StaticFileRoute.get_file_response'):
-        fi = st.func(q)
-        for r in raises_of(fi):
-            if isinstance(r.exc, ast.Call) and raise_type(r) in HTTP_ERRS:
-                n += 1
-                v = kwarg(r.exc, 'is_breaking')
-                ok = isinstance(v, ast.Constant) and v.value is False
-                rep.check(rule, fkey(fi, r) + '#' + ','.join(cond_texts(conds(fi, r)))[:80], ok,
-                          '%s is raised non-breaking' % raise_type(r) if ok else
-                          '%s raised without is_breaking=False: routes after this static application are never tried' % raise_type(r), st, r)
-            elif r.exc is not None:
-                rep.fail(rule, fkey(fi, r), 'serving function raises %s, which becomes a 500' % raise_type(r), st, r)
+        n += _check_raises(rep, rule, st, st.func(q), 'routes after this static application are never tried')
     return n
 
 
+def _group(rep, fn, *args):
+    """One rule group: AnalysisError => gap (the other groups still run); any other exception is a checker defect and
+    is reported as an analysis error too, never as a pass."""
+    def group():
+        try:
+            return fn(rep, *args)
+        except AnalysisError:
+            raise
+        except Exception as e:      # pragma: no cover
+            import traceback
+            raise AnalysisError('internal error in %s: %r at %s' % (fn.__name__, e, traceback.format_exc().strip().splitlines()[-3:-1]))
+    group.__name__ = fn.__name__.lstrip('_')
+    return rep.guard(group)
+
+
 def run(rep):
-    repo = rep.repo
-    st = repo.mod(STATIC)
     rep.decide('R14.a sanitise-then-use in find_file; R14.b non-breaking 403/404 discipline; R14.c filesystem calls '
                'under OSError handlers; R14.d 304 / success header assignments; R14.e route shape')
     rep.decline('byte equality of served bodies, MIME guessing, Last-Modified formatting (values)')
     rep.assume('os.path.normpath leaves ".." components only as a prefix of a relative path (POSIX semantics)')
     rep.assume('os.path.isfile never raises')
+    _group(rep, _r14a)
+    _group(rep, _r14b)
+    _group(rep, _r14c)
+    _group(rep, _r14d)
+    _group(rep, _r14e)
 
-    # ---- R14.a -----------------------------------------------------------
+
+def _find_file_call(st):
+    gfr = st.func('StaticApplication.get_file_response')
+    ffc = [c for c in walk_body(gfr.node) if isinstance(c, ast.Call) and call_tail(c) == 'find_file']
+    if len(ffc) != 1:
+        raise AnalysisError('StaticApplication.get_file_response: expected one find_file call')
+    res_var = None
+    fs = stmt_of(st, ffc[0])
+    if isinstance(fs, ast.Assign) and fs.value is ffc[0] and len(fs.targets) == 1:
+        res_var = norm(fs.targets[0])
+    return gfr, ffc[0], res_var
+
+
+def _r14a(rep):
+    repo = rep.repo
+    st = repo.mod(STATIC)
     rep.rule('R14.a', 'the joined path is the normalised one and has passed the absolute / pardir refusals')
     ff = st.func('find_file')
     cfg = cfg_of(ff)
@@ -106,42 +471,85 @@ def run(rep):
             rep.fail('R14.a', key, 'joined value %s is not a simple local (cannot show it is the sanitised one)' % short(x), st, j)
             continue
         X = x.id
-        asg = [s for s in stmts_of(ff.node) if isinstance(s, (ast.Assign, ast.AugAssign, ast.For)) and X in
-               [n.id for n in ast.walk(s.targets[0] if isinstance(s, ast.Assign) else s.target) if isinstance(n, ast.Name)]]
-        ok = len(asg) == 1 and isinstance(asg[0], ast.Assign) and isinstance(asg[0].value, ast.Call) \
-            and call_tail(asg[0].value) == 'normpath' and asg[0].value.args and norm(asg[0].value.args[0]) == params[1] \
-            and X not in params
+
+        def bindings(name):
+            return [s for s in stmts_of(ff.node) if isinstance(s, (ast.Assign, ast.AugAssign, ast.For, ast.AnnAssign)) and name in
+                    [n.id for t in (s.targets if isinstance(s, ast.Assign) else [s.target]) for n in ast.walk(t) if isinstance(n, ast.Name)]]
+        # the names that stand for the one normalised value: each bound exactly once, to os.path.normpath(<path>) or to
+        # another such name (``normalized = normpath(path); rel_path = normalized``)
+        names = set()
+        locs = _locals_of(ff) - set(params)
+        grew = True
+        while grew:
+            grew = False
+            for n in sorted(locs - names):
+                b = bindings(n)
+                if len(b) != 1 or not (isinstance(b[0], ast.Assign) and len(b[0].targets) == 1 and isinstance(b[0].targets[0], ast.Name)):
+                    continue
+                v = b[0].value
+                if (isinstance(v, ast.Call) and call_tail(v) == 'normpath' and len(v.args) == 1 and not v.keywords
+                        and norm(v.args[0]) == params[1] and not bindings(params[1])) or (isinstance(v, ast.Name) and v.id in names):
+                    names.add(n)
+                    grew = True
+        ok = X in names
         rep.check('R14.a', key + '::source', ok,
                   '%s is assigned once, from os.path.normpath(%s)' % (X, params[1]) if ok else
                   'joined value %s is not the single result of os.path.normpath(%s) (raw or re-assigned path reaches the join)'
                   % (X, params[1]), st, j)
+        if not ok:
+            names = {X}
         jn = cfg.nodes_of(stmt_of(st, j))
-        lim_f = []
-        abs_f, par_f = [], []
-        for nid, t_, p_ in cfg.branches():
-            if norm(t_) == 'limit_root' and p_ is False:
-                lim_f.append(nid)
-            if _is_abs_test(t_, X) and p_ is False:
-                abs_f.append(nid)
-            if _is_pardir_test(t_, X) and p_ is False:
-                par_f.append(nid)
-        for label, nodes in (('absolute-path refusal', abs_f), ('parent-directory refusal', par_f)):
-            ok = bool(nodes) and cfg.must_pass(set(nodes) | set(lim_f), cfg.entry, jn)
+
+        seen_tests = set()
+
+        def atom(t, p):
+            if p is False and norm(t) == 'limit_root':
+                return ('abs', 'par')
+            if any(_is_abs_test(t, n) for n in names):
+                seen_tests.add('abs')
+                return ('abs',) if p is False else ()
+            if any(_is_pardir_test(t, n) for n in names):
+                seen_tests.add('par')
+                return ('par',) if p is False else ()
+            return ()
+        facts = [(nid, _edge_facts(cfg, nid, t_, p_, atom)) for nid, t_, p_ in cfg.branches()]
+        for label, tag in (('absolute-path refusal', 'abs'), ('parent-directory refusal', 'par')):
+            nodes = [nid for nid, f in facts if tag in f]
+            tested = tag in seen_tests
+            if not tested:
+                # no such test in find_file itself: was the normalised path handed to a function we do not see into?
+                for c in walk_body(ff.node):
+                    if isinstance(c, ast.Call) and _internal_callee(ff, c) and \
+                            any(isinstance(a_, ast.Name) and a_.id in names for a_ in list(c.args) + [k.value for k in c.keywords]):
+                        raise AnalysisError('find_file: %s not found in find_file; %s is passed to %s(), which is not followed'
+                                            % (label, X, _internal_callee(ff, c)))
+            ok = tested and cfg.must_pass(set(nodes), cfg.entry, jn)
             rep.check('R14.a', key + '::' + label, ok,
                       'every path to the join passes the false branch of the %s on %s' % (label, X) if ok else
                       'the join is reachable without the %s on the normalised path %s (path traversal: a request path can '
                       'escape the search directory)' % (label, X), st, j)
     # true branches raise ValueError
     for r in raises_of(ff):
-        rep.check('R14.a', fkey(ff, r), raise_type(r) == 'ValueError', 'refusal raises ValueError (mapped to 403 by the caller)'
-                  if raise_type(r) == 'ValueError' else 'refusal raises %s, which the caller does not map to 403' % raise_type(r), st, r)
+        rep.check('R14.a', fkey(ff, r), _rtype(ff, r) == 'ValueError', 'refusal raises ValueError (mapped to 403 by the caller)'
+                  if _rtype(ff, r) == 'ValueError' else 'refusal raises %s, which the caller does not map to 403' % _rtype(ff, r), st, r)
     # only regular files are "found": a directory (or other entry) must not shadow a file of a later search path,
     # and must never be handed to build_file_response (whose 304 branch runs before its own isfile test)
-    frets = [r for r in returns_of(ff) if not (isinstance(r.value, ast.Constant) and r.value.value is None)]
+    frets = [r for r in returns_of(ff) if not (r.value is None or (isinstance(r.value, ast.Constant) and r.value.value is None))]
     ok = bool(frets)
+
+    def is_isfile_of(t, what):
+        return isinstance(t, ast.Call) and call_tail(t) == 'isfile' and len(t.args) == 1 and norm(t.args[0]) == norm(what)
+
+    def first_regular(v):
+        """``next((<p> for .. in .. if isfile(<p>)), None)``: the first candidate that is a regular file, else None"""
+        if not (isinstance(v, ast.Call) and isinstance(v.func, ast.Name) and v.func.id == 'next' and len(v.args) == 2 and not v.keywords
+                and isinstance(v.args[0], ast.GeneratorExp) and isinstance(v.args[1], ast.Constant) and v.args[1].value is None):
+            return False
+        g = v.args[0]
+        return any(is_isfile_of(c, g.elt) for gen in g.generators for i in gen.ifs for c, p_ in expand_conds([(i, True)]) if p_ is True)
     for r in frets:
-        cs = conds(ff, r)
-        ok = ok and has_cond(cs, lambda t: isinstance(t, ast.Call) and call_tail(t) == 'isfile' and norm(t.args[0]) == norm(r.value), True)
+        cs = _conds(ff, r)
+        ok = ok and (has_cond(cs, lambda t: is_isfile_of(t, r.value), True) or first_regular(r.value))
     rep.check('R14.a', fkey(ff, 'only regular files'), ok, 'a path is returned only under isfile(<that path>)' if ok else
               'find_file can return a path that is not a regular file (exists()/isdir/no test): directories shadow files of later '
               'search paths and reach the 304 branch', st, frets[0] if frets else ff.node)
@@ -151,51 +559,42 @@ def run(rep):
         for fi in m.functions.values():
             for c in walk_body(fi.node):
                 if isinstance(c, ast.Call) and call_tail(c) == 'find_file':
-                    lr = kwarg(c, 'limit_root') or (c.args[2] if len(c.args) > 2 else None)
+                    lr = argn(c, 'limit_root', 2)
                     ok = lr is None or (isinstance(lr, ast.Constant) and lr.value is True)
                     rep.check('R14.a', fkey(fi, 'find_file call'), ok, 'caller keeps limit_root on' if ok else
                               'caller passes limit_root=%s' % short(lr), m, c)
     rep.floor('R14.a', 7)
 
-    # ---- R14.b -----------------------------------------------------------
+
+def _r14b(rep):
+    repo = rep.repo
+    st = repo.mod(STATIC)
     rep.rule('R14.b', 'every HTTP error raised while serving is non-breaking; find_file failures map to 403/404')
     serving = [st.func('build_file_response'), st.func('StaticApplication.get_file_response'),
                st.func('StaticFileRoute.get_file_response')]
     for fi in serving:
-        for r in raises_of(fi):
-            if isinstance(r.exc, ast.Call) and raise_type(r) in HTTP_ERRS:
-                v = kwarg(r.exc, 'is_breaking')
-                ok = isinstance(v, ast.Constant) and v.value is False
-                rep.check('R14.b', fkey(fi, r) + '#' + ','.join(cond_texts(conds(fi, r)))[:80], ok,
-                          '%s is raised non-breaking' % raise_type(r) if ok else
-                          '%s raised without is_breaking=False: later (overlapping) static applications are never tried' % raise_type(r),
-                          st, r)
-            elif r.exc is not None and not (isinstance(r.exc, ast.Call) and raise_type(r) in HTTP_ERRS):
-                rep.fail('R14.b', fkey(fi, r), 'serving function raises %s, which becomes a 500' % raise_type(r), st, r)
-    gfr = st.func('StaticApplication.get_file_response')
-    ffc = [c for c in walk_body(gfr.node) if isinstance(c, ast.Call) and call_tail(c) == 'find_file']
-    if len(ffc) != 1:
-        raise AnalysisError('StaticApplication.get_file_response: expected one find_file call')
+        _check_raises(rep, 'R14.b', st, fi, 'later (overlapping) static applications are never tried')
+    gfr, ffc, res_var = _find_file_call(st)
     for exc in ('ValueError', 'OSError'):
-        h = protected_by(gfr, ffc[0], exc)
-        ok = h is not None and _nonbreaking_forbidden(h) and any(raise_type(r) == 'Forbidden' for r in ast.walk(h) if isinstance(r, ast.Raise))
+        h = _protected_by(gfr, ffc, exc)
+        ok = h is not None and _nonbreaking_forbidden(h, gfr) and any(_rtype(gfr, r) == 'Forbidden' for r in ast.walk(h) if isinstance(r, ast.Raise))
         rep.check('R14.b', fkey(gfr, 'find_file under except %s' % exc), ok,
                   '%s from find_file becomes a non-breaking Forbidden' % exc if ok else
-                  '%s from find_file is not turned into a non-breaking 403' % exc, st, ffc[0])
-    res_var = None
-    fs = stmt_of(st, ffc[0])
-    if isinstance(fs, ast.Assign):
-        res_var = norm(fs.targets[0])
-    nf = [r for r in raises_of(gfr) if raise_type(r) == 'NotFound' and
-          has_cond(conds(gfr, r), lambda t: norm(t) in ('%s is None' % res_var, 'not %s' % res_var), True)]
+                  '%s from find_file is not turned into a non-breaking 403' % exc, st, ffc)
+    nf = [r for r in raises_of(gfr) if res_var is not None and _rtype(gfr, r) == 'NotFound' and implies_absent(_conds(gfr, r), res_var)]
     rep.check('R14.b', fkey(gfr, 'None => NotFound'), bool(nf), 'a missing file raises NotFound' if nf else
               'a None result of find_file is not turned into NotFound', st, gfr.node)
     # the bfr call only happens with a found path: not reachable when result is None
     rep.floor('R14.b', 7)
 
-    # ---- R14.c -----------------------------------------------------------
+
+def _r14c(rep):
+    repo = rep.repo
+    st = repo.mod(STATIC)
+    serving = [st.func('build_file_response'), st.func('StaticApplication.get_file_response'),
+               st.func('StaticFileRoute.get_file_response')]
     rep.rule('R14.c', 'filesystem primitives on the serving path are under an OSError handler raising non-breaking Forbidden')
-    bfr = st.func('build_file_response')
+    bfr = serving[0]
     n_prims = 0
     for c in walk_body(bfr.node):
         if not isinstance(c, ast.Call):
@@ -206,8 +605,8 @@ def run(rep):
         if tail in ('read', 'seek', 'tell') and not isinstance(c.func, ast.Attribute):
             continue
         n_prims += 1
-        h = protected_by(bfr, c, 'OSError')
-        ok = h is not None and _nonbreaking_forbidden(h)
+        h = _protected_by(bfr, c, 'OSError')
+        ok = h is not None and _nonbreaking_forbidden(h, bfr)
         rep.check('R14.c', fkey(bfr, c), ok,
                   '%s(...) is under "except %s" raising a non-breaking 403' % (tail, norm(h.type)) if ok else
                   'filesystem call %s is outside any OSError handler that raises a non-breaking Forbidden: an I/O error '
@@ -219,13 +618,13 @@ def run(rep):
     for fi in serving[1:]:
         for c in walk_body(fi.node):
             if isinstance(c, ast.Call) and call_tail(c) in FS_PRIMS and call_tail(c) not in ('read', 'seek', 'tell'):
-                h = protected_by(fi, c, 'OSError')
-                ok = h is not None and _nonbreaking_forbidden(h)
+                h = _protected_by(fi, c, 'OSError')
+                ok = h is not None and _nonbreaking_forbidden(h, fi)
                 rep.check('R14.c', fkey(fi, c), ok, 'protected' if ok else
                           'filesystem call %s in %s is unprotected' % (short(c), fi.qualname), st, c)
     # helpers themselves do not swallow: (nothing to check) ; helper bodies only use primitives
     for hname in ('get_file_mtime', 'peek_file'):
-        hf = st.func(hname)
+        st.func(hname)
         sites = []
         for m in repo.all_internal_modules():
             for fi in m.functions.values():
@@ -238,23 +637,51 @@ def run(rep):
             if fi.qualname in ('StaticFileRoute.__init__',):
                 rep.ok('R14.c', fkey(fi, c), 'construction-time probe (fails construction, not a request)', m, c)
                 continue
-            h = protected_by(fi, c, 'OSError')
-            ok = h is not None and _nonbreaking_forbidden(h)
+            if _unreferenced_private(repo, fi):
+                rep.ok('R14.c', fkey(fi, c), 'private function without any remaining reference in the package (not on the serving path)', m, c)
+                continue
+            ok = _site_protected(repo, fi, c)
             rep.check('R14.c', fkey(fi, c), ok, 'call site of helper %s is protected' % hname if ok else
                       'helper %s (performs file I/O) is called unprotected in %s' % (hname, fi.qualname), m, c)
     rep.floor('R14.c', 4)
 
-    # ---- R14.d -----------------------------------------------------------
+
+def _is_mtime_of(bfr, e):
+    return isinstance(e, ast.Call) and call_tail(e) == 'get_file_mtime' and e.args and norm(e.args[0]) == bfr.params()[0]
+
+
+def _r14d(rep):
+    repo = rep.repo
+    st = repo.mod(STATIC)
+    bfr = st.func('build_file_response')
     rep.rule('R14.d', '304 only for a not-newer file and before open(); success path assigns body and headers')
     cfg_b = cfg_of(bfr)
     s304 = [s for s in stmts_of(bfr.node) if isinstance(s, ast.Assign) and isinstance(s.targets[0], ast.Attribute)
-            and s.targets[0].attr in ('status_code', 'status') and isinstance(s.value, ast.Constant) and str(s.value.value).startswith('304')]
+            and s.targets[0].attr in ('status_code', 'status') and str(repo.try_fold(s.value, st, '')).startswith('304')]
     if len(s304) != 1:
         raise AnalysisError('build_file_response: expected one 304 status assignment')
-    cs = conds(bfr, s304[0])
+    cs = _conds(bfr, s304[0])
     c1 = has_cond(cs, lambda t: isinstance(t, ast.Name) and t.id == 'cache_timeout', True) and \
         has_cond(cs, lambda t: isinstance(t, ast.Name) and t.id == 'cached_modify_time', True)
-    c2 = has_cond(cs, lambda t: norm(t) in ('mtime <= cached_modify_time', 'cached_modify_time >= mtime'), True)
+    # ``<file mtime> <= cached_modify_time`` (either way round); the name holding the file's mtime is free
+    mt_names = []
+
+    def not_newer(t, pol=True):
+        # mtime <= cmt, cmt >= mtime hold; or mtime > cmt, cmt < mtime do not hold (datetimes are totally ordered)
+        if not (isinstance(t, ast.Compare) and len(t.ops) == 1):
+            return False
+        l, r = t.left, t.comparators[0]
+        op = type(t.ops[0])
+        if op in (ast.GtE, ast.Lt):
+            l, r = r, l
+            op = {ast.GtE: ast.LtE, ast.Lt: ast.Gt}[op]
+        if op is not (ast.LtE if pol else ast.Gt):
+            return False
+        if isinstance(l, ast.Name) and norm(r) == 'cached_modify_time' and l.id != 'cached_modify_time':
+            mt_names.append(l)
+            return True
+        return False
+    c2 = has_cond(cs, not_newer, True) or has_cond(cs, lambda t: not_newer(t, False), False)
     rep.check('R14.d', fkey(bfr, '304 condition'), c1 and c2,
               '304 only when caching is on, the client sent a date, and mtime <= that date' if c1 and c2 else
               '304 is not conditioned on (cache_timeout and cached_modify_time) and mtime <= cached_modify_time: %s' % '; '.join(cond_texts(cs)),
@@ -265,59 +692,73 @@ def run(rep):
               and not (set(cfg_b.nodes_of(r)) & cfg_b.reach(cfg_b.nodes_of_all(opens)))]
     rep.check('R14.d', fkey(bfr, '304 before open'), bool(ret304), 'the 304 response returns before any file is opened' if ret304 else
               'the 304 path opens the file (or does not return)', st, s304[0])
-    mt_src = [s for s in stmts_of(bfr.node) if isinstance(s, ast.Assign) and norm(s.targets[0]) == 'mtime']
-    ok = bool(mt_src) and all(isinstance(s.value, ast.Call) and call_tail(s.value) in ('get_file_mtime',) and norm(s.value.args[0]) == bfr.params()[0]
-                              for s in mt_src)
-    rep.check('R14.d', fkey(bfr, 'mtime source'), ok, 'mtime is the served file\'s modification time' if ok else
-              'mtime does not come from get_file_mtime(path)', st, bfr.node)
     final_rets = [r for r in rets if r not in ret304]
     if not final_rets:
         raise AnalysisError('build_file_response: success return not found')
     resp_var = norm(final_rets[-1].value)
-    need = {'response': lambda v: isinstance(v, ast.Call) and call_name(v) == 'file_wrapper' and v.args and
-            any(norm(v.args[0]) == norm(o.targets[0]) for o in opens if isinstance(o, ast.Assign)),
-            'content_type': lambda v: norm(v) == 'mimetype',
-            'content_length': lambda v: any(isinstance(s, ast.Assign) and norm(s.targets[0]) == norm(v) and isinstance(s.value, ast.Call)
-                                            and call_tail(s.value) == 'getsize' for s in stmts_of(bfr.node)),
-            'last_modified': lambda v: norm(v) == 'mtime'}
+    hdr = lambda attr: [s for s in stmts_of(bfr.node) if isinstance(s, ast.Assign) and norm(s.targets[0]) == '%s.%s' % (resp_var, attr)]
+    # every local that stands for the file's modification time (compared for the 304, sent as Last-Modified) only ever
+    # holds get_file_mtime(path)
+    for s in hdr('last_modified'):
+        if isinstance(s.value, ast.Name):
+            mt_names.append(s.value)
+    if not mt_names:
+        mt_names = [ast.Name(id='mtime', ctx=ast.Load())]
+    ok = all(_all_srcs(bfr, n, lambda e: _is_mtime_of(bfr, e)) for n in mt_names) and not assigned_value(bfr.node, bfr.params()[0])
+    rep.check('R14.d', fkey(bfr, 'mtime source'), ok, 'mtime is the served file\'s modification time' if ok else
+              'mtime does not come from get_file_mtime(path)', st, bfr.node)
+    need = {'response': lambda v: isinstance(v, ast.Call) and call_name(v) == 'file_wrapper' and len(v.args) == 1 and not v.keywords and
+            _all_srcs(bfr, v.args[0], lambda e: isinstance(e, ast.Call) and call_name(e) == 'open'),
+            'content_type': lambda v: isinstance(v, ast.Name) and any(_is_param(e, 'mimetype') for e in _srcs(bfr, v)),
+            'content_length': lambda v: isinstance(v, ast.Name) and _all_srcs(bfr, v, lambda e: isinstance(e, ast.Call) and call_tail(e) == 'getsize'),
+            'last_modified': lambda v: isinstance(v, ast.Name) and _all_srcs(bfr, v, lambda e: _is_mtime_of(bfr, e))}
     for attr, pred in need.items():
-        sts = [s for s in stmts_of(bfr.node) if isinstance(s, ast.Assign) and norm(s.targets[0]) == '%s.%s' % (resp_var, attr)]
+        sts = hdr(attr)
         ok = bool(sts) and all(cfg_b.must_pass(cfg_b.nodes_of_all(sts), cfg_b.nodes_of_all(opens), cfg_b.nodes_of(r), normal_only=True)
                                for r in final_rets) and all(pred(s.value) for s in sts)
         rep.check('R14.d', fkey(bfr, '%s.%s' % (resp_var, attr)), ok,
                   '%s is assigned from the right source on every success path' % attr if ok else
                   'success path does not always assign %s.%s from the expected source' % (resp_var, attr), st, sts[0] if sts else bfr.node)
     # isfile check precedes open
-    isf_f = [nid for nid, t_, p_ in cfg_b.branches() if isinstance(t_, ast.Call) and call_tail(t_) == 'isfile' and p_ is True]
+    isf_f = [nid for nid, t_, p_ in [(n,) + _branch_test(cfg_b, n, t, p) for n, t, p in cfg_b.branches()]
+             if isinstance(t_, ast.Call) and call_tail(t_) == 'isfile' and p_ is True]
     ok = bool(isf_f) and cfg_b.must_pass(isf_f, cfg_b.entry, cfg_b.nodes_of_all(opens))
     rep.check('R14.d', fkey(bfr, 'isfile before open'), ok, 'only regular files are opened (isfile test dominates open)' if ok else
               'open() is reachable without the isfile test (directories / special files)', st, bfr.node)
 
-    # ---- R14.e -----------------------------------------------------------
+
+def _r14e(rep):
+    repo = rep.repo
+    st = repo.mod(STATIC)
     rep.rule('R14.e', "StaticApplication serves '/<path*>' with get_file_response, joining segments with '/'")
     init = st.func('StaticApplication.__init__')
+    gfr, ffc, res_var = _find_file_call(st)
     found = False
     for n in walk_body(init.node):
-        if isinstance(n, ast.Tuple) and len(n.elts) >= 2 and isinstance(n.elts[0], ast.Constant) and n.elts[0].value == '/<path*>' \
+        if isinstance(n, ast.Tuple) and len(n.elts) >= 2 and repo.try_fold(n.elts[0], st) == '/<path*>' \
+                and not (isinstance(n.elts[0], ast.Name) and n.elts[0].id in _locals_of(init)) \
                 and norm(n.elts[1]) == 'self.get_file_response':
             found = True
     rep.check('R14.e', fkey(init, 'route'), found, "route '/<path*>' -> self.get_file_response" if found else
               "StaticApplication no longer registers '/<path*>' -> get_file_response", st, init.node)
-    joined = [s for s in stmts_of(gfr.node) if isinstance(s, ast.Assign) and isinstance(s.value, ast.Call)
-              and isinstance(s.value.func, ast.Attribute) and s.value.func.attr == 'join'
-              and isinstance(s.value.func.value, ast.Constant) and s.value.func.value.value == '/']
+
+    def slash_join(e):
+        return isinstance(e, ast.Call) and isinstance(e.func, ast.Attribute) and e.func.attr == 'join' and \
+            repo.try_fold(e.func.value, st) == '/' and not (isinstance(e.func.value, ast.Name) and e.func.value.id in _locals_of(gfr))
+    joined = [s for s in stmts_of(gfr.node) if isinstance(s, ast.Assign) and slash_join(s.value)]
     rep.check('R14.e', fkey(gfr, "'/'.join(path)"), bool(joined), "multi-segment path values are joined with '/'" if joined else
               "path segments are not joined with '/'", st, gfr.node)
-    ok = 'path' in gfr.params() and norm(ffc[0].args[1]) == 'path' and norm(ffc[0].args[0]) == 'self.search_paths'
+    # what is looked up is the bound ``path`` value: the parameter itself or its segments joined with '/'
+    ok = 'path' in gfr.params() and len(ffc.args) >= 2 and norm(ffc.args[0]) == 'self.search_paths' and \
+        _all_srcs(gfr, ffc.args[1], lambda e: _is_param(e, 'path') or (slash_join(e) and len(e.args) == 1 and norm(e.args[0]) == 'path'))
     rep.check('R14.e', fkey(gfr, 'find_file args'), ok, 'find_file(self.search_paths, path)' if ok else
-              'find_file is not called with (self.search_paths, path)', st, ffc[0])
+              'find_file is not called with (self.search_paths, path)', st, ffc)
     # the found path is what is served
-    from .common import local_aliases
     bc = [c for c in walk_body(gfr.node) if isinstance(c, ast.Call) and call_name(c) in local_aliases(gfr, 'build_file_response')]
-    ok = bool(bc) and res_var is not None and all(norm(c.args[0]) == res_var for c in bc)
+    ok = bool(bc) and res_var is not None and all(c.args and norm(c.args[0]) == res_var for c in bc)
     rep.check('R14.e', fkey(gfr, 'serves found path'), ok, 'the path returned by find_file is the one served' if ok else
               'build_file_response is not given the path found by find_file', st, bc[0] if bc else gfr.node)
-    cmt = [kwarg(c, 'cached_modify_time') for c in bc]
-    ok = bool(cmt) and all(norm(v) == 'request.if_modified_since' for v in cmt)
+    ok = bool(bc) and 'request' in gfr.params() and not assigned_value(gfr.node, 'request') and \
+        all(_all_srcs(gfr, argn(c, 'cached_modify_time', 2), lambda e: norm(e) == 'request.if_modified_since') for c in bc)
     rep.check('R14.e', fkey(gfr, 'if_modified_since'), ok, 'conditional requests use request.if_modified_since' if ok else
               'cached_modify_time is not request.if_modified_since', st, bc[0] if bc else gfr.node)
